@@ -7,6 +7,7 @@
 package main
 
 import (
+	"context"
 	"fmt"
 	"math"
 	"strconv"
@@ -41,22 +42,39 @@ func (t *ticker) Tick() int64 {
 }
 
 type listener struct {
-	id  int
-	log *[]string
+	id   int
+	log  *[]string
+	fail bool // this listener answers every callback with an error (the breaker must log it and go on)
+}
+
+var errListener = fmt.Errorf("listener failed")
+
+func (l *listener) ret() error {
+	if l.fail {
+		return errListener
+	}
+	return nil
 }
 
 func (l *listener) OnStateChanged(_ cb.CircuitBreaker, st cb.CircuitState) error {
 	*l.log = append(*l.log, fmt.Sprintf("%d:S%d", l.id, int(st)))
-	return nil
+	return l.ret()
 }
 func (l *listener) OnEventCountUpdated(_ cb.CircuitBreaker, e *cb.EventCount) error {
 	*l.log = append(*l.log, fmt.Sprintf("%d:C%d:%d", l.id, e.Success(), e.Failure()))
-	return nil
+	return l.ret()
 }
 func (l *listener) OnRequestRejected(_ cb.CircuitBreaker) error {
 	*l.log = append(*l.log, fmt.Sprintf("%d:R", l.id))
-	return nil
+	return l.ret()
 }
+
+// nullLogger is installed by scenarios with logger=1: logging must not change behaviour.
+type nullLogger struct{}
+
+func (nullLogger) Info(string)               {}
+func (nullLogger) Warn(string, interface{})  {}
+func (nullLogger) Error(string, interface{}) {}
 
 func (l *listener) Stop() {}
 
@@ -101,6 +119,20 @@ func (in *inst) Exec(t int, op vdrv.Op) string {
 			return "b1"
 		}
 		return "b0"
+	case "x":
+		// Execute(ctx, fn) = CanRequest, then fn exactly once with its results passed through, or ErrFailFast
+		calls, want := 0, fmt.Errorf("fn error")
+		r, err := in.br.(*cb.NonBlockingCircuitBreaker).Execute(context.Background(), func(context.Context) (interface{}, error) {
+			calls++
+			return 42, want
+		})
+		switch {
+		case calls == 1 && r == 42 && err == want:
+			return "b1"
+		case calls == 0 && r == nil && err == cb.ErrFailFast:
+			return "b0"
+		}
+		return fmt.Sprintf("bad-execute(calls=%d,r=%v,err=%v)", calls, r, err)
 	case "s":
 		in.br.OnSuccess()
 		return "u"
@@ -137,8 +169,14 @@ func newInst(s *vdrv.Scenario) vdrv.Instance {
 	b := cb.NewCircuitBreakerBuilder().SetTicker(in.tk).SetFailureRateThreshold(c.thr).SetMinimumRequestThreshold(c.minreq).
 		SetTrialRequestInterval(time.Duration(c.trial)).SetCircuitOpenWindow(time.Duration(c.openw)).
 		SetCounterSlidingWindow(time.Duration(c.window)).SetCounterUpdateInterval(time.Duration(c.interval))
+	lerr := s.OptInt("lerr", 0)
 	for i := 0; i < c.listeners; i++ {
-		b.AddListener(&listener{id: i, log: &in.log})
+		b.AddListener(&listener{id: i, log: &in.log, fail: lerr&(1<<uint(i)) != 0})
+	}
+	if s.OptInt("logger", 0) == 1 {
+		cb.SetDefaultLogger(nullLogger{})
+	} else {
+		cb.SetDefaultLogger(nil)
 	}
 	br, err := b.Build()
 	if err != nil {
@@ -229,7 +267,7 @@ func (r *refBreaker) notifyCount(c [2]int64) {
 
 func (r *refBreaker) apply(op string, tick func() int64) string {
 	switch op {
-	case "c":
+	case "c", "x":
 		if r.kind == 0 {
 			return "b1"
 		}
@@ -364,7 +402,7 @@ func monitor(s *vdrv.Scenario, h *vdrv.History, fin string, aborted string) stri
 	// concurrent breaker runs: transition / rejection accounting per listener
 	admittedNonClosed, rejected := 0, 0
 	for _, c := range cs {
-		if c.op.Name == "c" && c.res == "b0" {
+		if (c.op.Name == "c" || c.op.Name == "x") && c.res == "b0" {
 			rejected++
 		}
 	}
@@ -390,7 +428,7 @@ func monitor(s *vdrv.Scenario, h *vdrv.History, fin string, aborted string) stri
 		want, _ := strconv.Atoi(exp)
 		got := 0
 		for _, c := range cs {
-			if c.op.Name == "c" && c.res == "b1" && c.k >= s.OptInt("phase2_from", 0) && c.t >= s.OptInt("phase2_threads_from", 0) {
+			if (c.op.Name == "c" || c.op.Name == "x") && c.res == "b1" && c.k >= s.OptInt("phase2_from", 0) && c.t >= s.OptInt("phase2_threads_from", 0) {
 				got++
 			}
 		}
